@@ -53,3 +53,41 @@ Definition p_ok (s : ps) : bool := N.eqb (m_viol (ps_m s)) 0.
 
 Definition table_of (r : role) (idk : bool) : table ps * bool :=
   explore ps_beq hash_ps pnext 400 (pinit r idk).
+
+(* ---- the tables (computed once by the unverified search) and their kernel-checked
+   certificates: initial state inside, closed under every control event, no violation ---- *)
+Definition tSF := Eval vm_compute in fst (table_of Server false).
+Definition tST := Eval vm_compute in fst (table_of Server true).
+Definition tCF := Eval vm_compute in fst (table_of Client false).
+Definition tCT := Eval vm_compute in fst (table_of Client true).
+
+Definition table_for (r : role) (idk : bool) : table ps :=
+  match r, idk with
+  | Server, false => tSF | Server, true => tST | Client, false => tCF | Client, true => tCT
+  end.
+
+Definition cert_ok (r : role) (idk : bool) : bool :=
+  let t := table_for r idk in
+  mem ps_beq hash_ps (pinit r idk) t
+  && closed_check ps_beq hash_ps pnext t
+  && forallb p_ok (members t).
+
+Lemma cert_SF : cert_ok Server false = true. Proof. vm_compute. reflexivity. Qed.
+Lemma cert_ST : cert_ok Server true = true. Proof. vm_compute. reflexivity. Qed.
+Lemma cert_CF : cert_ok Client false = true. Proof. vm_compute. reflexivity. Qed.
+Lemma cert_CT : cert_ok Client true = true. Proof. vm_compute. reflexivity. Qed.
+
+Lemma cert_all r idk : cert_ok r idk = true.
+Proof. destruct r, idk; [apply cert_CT | apply cert_CF | apply cert_ST | apply cert_SF]. Qed.
+
+(* every product state reachable by any number of control events is free of violations *)
+Theorem reach_ok r idk s : reach pnext (pinit r idk) s -> p_ok s = true.
+Proof.
+  pose proof (cert_all r idk) as H. unfold cert_ok in H.
+  apply andb_true_iff in H as [H H3]. apply andb_true_iff in H as [H1 H2].
+  apply (invariant_by_closure ps ps_beq ps_beq_eq hash_ps pnext (pinit r idk) (table_for r idk) p_ok H1 H2 H3).
+Qed.
+
+(* the tables are not trivial *)
+Definition table_sizes : list nat :=
+  [length (members tSF); length (members tST); length (members tCF); length (members tCT)].
